@@ -252,3 +252,37 @@ def run(ctx):
     neg = [n for n in walk_no_nested(si) if isinstance(n, ast.If) and norm(n.test) == "value < 0"]
     ok = bool(neg) and any(norm(b) == "value = limit + value" for b in neg[0].body) and any(isinstance(n, ast.Assert) and "value >= 0" in norm(n.test) and "value < limit" in norm(n.test) for n in walk_no_nested(si))
     ctx.ob("C10.R4", T + ":Token.__setitem__", "a negative value is stored as its two's complement and re-checked to lie in [0, 2^bits)", ok, construct="negative-wrap")
+    _field_setters(ctx)
+
+
+def _field_setters(ctx):
+    """R6: the token field properties hand the value to the range check unchanged, and a concatenated field checks
+    what is left after its parts were filled"""
+    import ast as _a
+    from ..core import norm as _n, walk_no_nested as _w
+    T = "ppci/arch/token.py"
+    ctx.rule("C10.R6", "token field setters: bit_range stores the value as given (Token.__setitem__ performs the range check on the ORIGINAL value); bit_concat rejects a value whose bits do not all fit its parts", floor=4)
+    br = ctx.fn(T, "bit_range")
+    st = [f for f in br.body if isinstance(f, _a.FunctionDef) and f.name == "setter"]
+    ctx.need(len(st) == 1 and len(st[0].args.args) == 2, "bit_range: setter closure not found")
+    s_, v_ = st[0].args.args[0].arg, st[0].args.args[1].arg
+    body = [x for x in st[0].body if not (isinstance(x, _a.Expr) and isinstance(x.value, _a.Constant))]
+    ok = len(body) == 1 and isinstance(body[0], _a.Assign) and _n(body[0].targets[0]) == "%s[b:e]" % s_ and _n(body[0].value) == v_
+    ctx.ob("C10.R6", T + ":bit_range.setter", "the setter is exactly `token[b:e] = value`: nothing masks, wraps or clamps the value before the token's range check sees it", ok, construct="range-setter-verbatim",
+           detail="; ".join(" ".join(_n(x).split())[:50] for x in body))
+    gt = [f for f in br.body if isinstance(f, _a.FunctionDef) and f.name == "getter"]
+    ok = len(gt) == 1 and any(isinstance(r, _a.Return) and _n(r.value) == "%s[b:e]" % gt[0].args.args[0].arg for r in _a.walk(gt[0]))
+    ctx.ob("C10.R6", T + ":bit_range.getter", "the getter reads the same slice", ok, construct="range-getter")
+    bc = ctx.fn(T, "bit_concat")
+    st = [f for f in bc.body if isinstance(f, _a.FunctionDef) and f.name == "setter"]
+    ctx.need(len(st) == 1, "bit_concat: setter closure not found")
+    v_ = st[0].args.args[1].arg
+    loops = [l for l in _w(st[0]) if isinstance(l, _a.For)]
+    ok = len(loops) == 1 and "reversed(partials)" in _n(loops[0].iter) and any(isinstance(x, _a.Assign) and _n(x.targets[0]) == v_ and ">>" in _n(x.value) and "_bitsize" in _n(x.value) for x in loops[0].body) and \
+        any(isinstance(c, _a.Call) and _n(c.func).endswith(".__set__") and "& " in _n(c) and "_mask" in _n(c) for c in _a.walk(loops[0]))
+    ctx.ob("C10.R6", T + ":bit_concat.setter", "the value is distributed over the parts from the least significant part up, each part taking its own width", ok, construct="concat-distribute")
+    after = [x for x in st[0].body if loops and x.lineno > loops[0].lineno]
+    chk = [x for x in after if isinstance(x, _a.If) and any(isinstance(r, _a.Raise) for r in _a.walk(x))]
+    t = " ".join(_n(chk[0].test).split()) if chk else ""
+    ok = bool(chk) and t in ("%s not in (0, -1)" % v_, "%s != 0 and %s != -1" % (v_, v_), "%s not in (-1, 0)" % v_)
+    ctx.ob("C10.R6", T + ":bit_concat.setter", "what remains of the value after all parts were filled must be 0 (or -1 for a negative value): otherwise the value does not fit and ValueError is raised", ok, construct="concat-leftover-checked", detail=t)
